@@ -39,6 +39,11 @@ def run(ctx: Ctx):
   for r in (r1, r2, r3, r4, r5, r6, r7, r10, r11, r13, r14, r15, r16, r17, r18):
     ctx.guard(r)
   from mlmverif.props import c03
+  from mlmverif.props import c15
+  ctx.include('R-C16-19', '"the same multiset of output batches": a remote iteration batch is collected by ONE blocking batch read of'
+              ' the prefetch queue, which hands over what it already dequeued when the shard ends in the middle of the batch'
+              ' (R-C15-4) — a batch assembled from single get() calls is lost whole when the end of the shard interrupts it:'
+              ' the last n mod iterate_batch_size outputs of every shard never reach the master', c15.r4, min_instances=3)
   ctx.include('R-C16-9', '"delivers exactly one final aggregate result": the'
               ' master finalises the merged state of ALL stages through'
               ' get_result, which tolerates the other stages\' entries (R-C03-7)',
@@ -766,6 +771,8 @@ from mlmverif.selfcheck import B, OK  # noqa: E402
 _T = 'chainables/transform.py'
 _O = 'chainables/orchestrate.py'
 VARIANTS = [
+    B('remote-batch-from-single-gets', 'chainables/courier_server.py',
+      "      result = self._generator.get_batch(batch_size, block=True)", "      result = [self._generator.get() for _ in range(max(batch_size, 1))]", 'R-C16-19'),
     B('every-runner-of-a-chain-drops-its-outputs', 'chainables/transform.py',
       '          iterator,\n          with_agg_state=with_agg_state,\n          state=state if r.has_agg else None,',
       '          iterator,\n          with_result=with_result,\n          with_agg_state=with_agg_state,\n          state=state if r.has_agg else None,', 'R-C16-17'),
